@@ -118,6 +118,7 @@ def c17():
         acts = [a for a in b["hist"] if a["a"] == "D"]
         if s.create_graph_updater(BUILDERS[i % 4], True, True, subscribe=False) != "ok":
             continue
+        s.header["featcheck"] = True
         cut = rng.randint(1, max(1, len(acts) - 1))
         for k, a in enumerate(acts):
             if k == cut:
